@@ -17,6 +17,7 @@ import (
 	"strings"
 	"sync"
 	"sync/atomic"
+	"syscall"
 	"time"
 
 	"github.com/hashicorp/go-hclog"
@@ -41,6 +42,7 @@ type worker struct {
 	stops    int64
 	runOpts  []gldap.Option
 	dir      *testdirectory.Directory
+	oldLimit syscall.Rlimit
 }
 
 func (w *worker) ev(format string, args ...interface{}) {
@@ -204,6 +206,33 @@ func cmdWorker(args []string) int {
 				fds = len(ents)
 			}
 			w.ev("stats goroutines=%d fds=%d", runtime.NumGoroutine(), fds)
+		case "fdlimit":
+			// descriptor exhaustion: lower RLIMIT_NOFILE to the lowest free descriptor
+			// number, so that the next accept(2) fails with EMFILE; "fdlimit 0" restores it
+			if f[1] == "1" {
+				var cur syscall.Rlimit
+				_ = syscall.Getrlimit(syscall.RLIMIT_NOFILE, &cur)
+				w.oldLimit = cur
+				probe, err := os.Open("/dev/null")
+				if err != nil {
+					w.ev("fdlimit error %v", err)
+					continue
+				}
+				n := probe.Fd()
+				probe.Close()
+				lim := syscall.Rlimit{Cur: uint64(n), Max: cur.Max}
+				if err := syscall.Setrlimit(syscall.RLIMIT_NOFILE, &lim); err != nil {
+					w.ev("fdlimit error %v", err)
+				} else {
+					w.ev("fdlimit set %d", n)
+				}
+			} else {
+				if err := syscall.Setrlimit(syscall.RLIMIT_NOFILE, &w.oldLimit); err != nil {
+					w.ev("fdlimit error %v", err)
+				} else {
+					w.ev("fdlimit restored")
+				}
+			}
 		case "mutate":
 			ms, _ := strconv.Atoi(f[1])
 			w.mutateDirectory(time.Duration(ms) * time.Millisecond)
